@@ -13,6 +13,9 @@ import time
 
 VERIF = os.path.dirname(os.path.dirname(os.path.abspath(__file__)))
 REPO = os.environ.get("VERIF_REPO", "/repo")
+# development aid (seed matrix runs against scratch worktrees): evidence and replays go elsewhere so
+# that the committed ones always describe /repo itself
+OUTDIR = os.environ.get("VERIF_OUTDIR", VERIF)
 SPEC = os.path.join(VERIF, "spec")
 HARNESS = os.path.join(VERIF, "harness")
 TLA_JAR = "/opt/veriftools/tla/tla2tools.jar"
@@ -272,7 +275,7 @@ class Verdict:
 
 
 def save_replay(prop, name, content):
-    d = os.path.join(VERIF, "replays", prop)
+    d = os.path.join(OUTDIR, "replays", prop)
     os.makedirs(d, exist_ok=True)
     p = os.path.join(d, name)
     with open(p, "w") as fh:
@@ -284,7 +287,7 @@ def save_replay(prop, name, content):
 
 
 def write_evidence(prop, tier, seed, level, coverage, wall, violations, assumptions=None):
-    d = os.path.join(VERIF, "evidence")
+    d = os.path.join(OUTDIR, "evidence")
     os.makedirs(d, exist_ok=True)
     ev = {
         "property_id": prop,
